@@ -45,6 +45,29 @@ def tune2fs_backups(world, rep, rule):
                "`%s` is dominated by the clear of EXT2_FLAG_MASTER_SB_ONLY" % c.text()[:40])
     resets = [n for n in main.nodes() if sets_master(n)]
     rep.ob(rule, site(main, "nothing re-sets MASTER_SB_ONLY"), not resets, "no store sets the flag in tune2fs main")
+    # ... nor a callee: a call that can replace or re-open the handle (it takes &fs, or may store the flag) must
+    # be followed by another clear before anything is changed or the file system is closed
+    may_set = prog.may(lambda f, n: sets_master(n))
+    handle = None
+    for cl_ in clears:
+        handle = (T.path(cl_.ev["lhs"]) or "").split("->")[0] or handle
+    reopen = []
+    for n in main.call_nodes():
+        if n in opens:
+            continue
+        takes_handle = any(isinstance(T.strip(a), dict) and T.strip(a).get("k") == "u" and T.strip(a).get("o") == "&" and
+                           T.path(T.strip(a)["e"]) == handle for a in n.ev["x"].get("a", []))
+        if takes_handle and any(g.key in may_set for g in prog.callees(main, n.ev["x"], weak=False)):
+            reopen.append(n)
+    closes = calls_to(main, "ext2fs_close_free", "ext2fs_close", "ext2fs_close2")
+    for i, rn in enumerate(reopen):
+        r = main.reach(main.after(rn), avoid=clears)
+        # error exits of the re-opening call itself are not changes
+        late = [c for c in changers if c in r]
+        rep.ob(rule, site(main, "backups enabled again after %s#%d" % (T.call_names(rn.ev["x"])[0], i)), not late,
+               "`%s` re-opens the handle (the new one is MASTER_SB_ONLY again); changers reachable afterwards without another "
+               "clear: %s" % (rn.text()[:40], [(c.line, T.call_names(c.ev["x"])[0]) for c in late[:4]]))
+    rep.extra.setdefault("handle_replacing_calls", []).extend(T.call_names(n.ev["x"])[0] for n in reopen)
 
 
 def run(world, rep, tier, only=None):
